@@ -263,7 +263,7 @@ def ev_step(ev):
         p = os.path.join(dir_rel(ev['dir']), ev['fname'])
         return {'gen': g, 'path': p, 'text': user_text(p, ev['n'])}
     st = {'gen': g, 'app': ev['app'], 'prefix': ev['prefix'], 'init': ev['init'], 'dir': dir_rel(ev['dir']),
-          'spec_file': ev.get('spec_file', 'spec'), 'pkg': list(dir_pkg(ev['dir']))}
+          'spec_file': ev.get('spec_file', 'spec'), 'pkg': list(dir_pkg(ev['dir'])), 'fault': ev.get('fault')}
     if g == 'soup':
         st.update(impl=ev['impl'], xml=soup_xml(ev['spec']))
     elif g == 'fix':
@@ -351,6 +351,11 @@ def run_steps(req):
         except TypeError:
             p = None
         if p and p.startswith(base + os.sep) and any(c in mode for c in 'wax+'):
+            fault[1] += 1
+            if fault[0] is not None and fault[1] == fault[0]:
+                # injected environment fault: this output file cannot be opened (path occupied / disk full) — the invocation fails
+                # in the middle of writing, and the process goes on to the next invocation
+                raise IsADirectoryError(21, 'injected: output path cannot be opened', p)
             log.append(['open', os.path.relpath(p, base), mode])
         return real_open(file, mode, *a, **kw)
 
@@ -364,8 +369,10 @@ def run_steps(req):
     devnull = real_open(os.devnull, 'w')
     ind = os.path.join(base, '_in')
     os.makedirs(ind, exist_ok=True)
+    fault = [None, 0]
     for st in req['steps']:
         del log[:]
+        fault[0], fault[1] = st.get('fault'), 0
         outcome, cmd, args = 'ok', None, None
         try:
             g = st['gen']
@@ -674,6 +681,7 @@ def fresh_event(ev):
     """the invocation alone: own process, own (empty) tree, the same relative directory and options"""
     e = copy.deepcopy(ev)
     e.pop('spec_file', None)
+    e.pop('fault', None)
     return e
 
 
@@ -700,6 +708,11 @@ def oracle(case, real, fresh_real):
         snap = res['snap']
         g = ev['gen']
         same_proc_before = [e for e in case[seg_start:k] if e['gen'] == g]
+        if ev.get('fault') is not None:
+            # an invocation that fails because of an injected environment fault is outside the property's quantifier (its result
+            # does depend on more than the spec); what the property says about it is that LATER invocations do not depend on it
+            prev_snap = snap
+            continue
         if g in ('soup', 'fix', 'asn1'):
             fr = fresh_real[fresh_key(ev)]
             d = dir_rel(ev['dir']) + os.sep
@@ -934,7 +947,8 @@ def gen_history(rng):
     """one history of 1..3 invocations (plus process boundaries and, for project histories, user edits)"""
     sf = SpecFactory(rng)
     shape = rng.choice(['single', 'regen', 'regen', 'two-dirs', 'two-dirs', 'edit-rebuild', 'edit-rebuild', 'b-after-a',
-                        'b-after-a', 'b-after-a', 'retarget-same-dir', 'mixed3', 'mixed3', 'project', 'project', 'project-gen'])
+                        'b-after-a', 'b-after-a', 'retarget-same-dir', 'mixed3', 'mixed3', 'project', 'project', 'project-gen',
+                        'b-after-failed-a', 'b-after-failed-a'])
     kind = rng.choice(['soup', 'soup', 'soup', 'fix', 'fix', 'fix', 'asn1'])
     d1, d2, d3 = ['out', 1], ['out', 2], ['out', 3]
     a = gen_invocation(rng, sf, kind, d1)
@@ -950,6 +964,20 @@ def gen_history(rng):
     elif shape == 'b-after-a':
         b = retarget(edit_spec(rng, sf, a) if rng.random() < 0.5 else gen_invocation(rng, sf, kind, d2), d2)
         evs = [a, b] + ([retarget(rng.choice([a, b]), d3)] if rng.random() < 0.4 else [])
+    elif shape == 'b-after-failed-a':
+        # (oracle only, not modelled) A fails in the middle of writing its output (the n-th output file cannot be opened); the process
+        # goes on: B — another spec, or A itself again — must come out exactly as it does alone
+        a['fault'] = rng.randint(1, 3)
+        c = rng.random()
+        if c < 0.4:
+            b = retarget(gen_invocation(rng, sf, kind, d2), d2)
+        elif c < 0.7:
+            b = retarget(edit_spec(rng, sf, a), d2)
+            b.pop('fault', None)
+        else:
+            b = retarget(copy.deepcopy(a), rng.choice([d1, d2]))
+            b.pop('fault', None)
+        evs = [a, b]
     elif shape == 'retarget-same-dir':
         b = other_target(rng, a)
         if rng.random() < 0.5:
@@ -1003,7 +1031,7 @@ def gen_history(rng):
             e['spec_file'] = 'spec' if same_file else f'spec{i}'
     # process boundaries
     out = []
-    mode = rng.choice(['one', 'one', 'separate', 'mixed'])
+    mode = 'one' if shape == 'b-after-failed-a' else rng.choice(['one', 'one', 'separate', 'mixed'])
     for i, e in enumerate(evs):
         if i > 0 and (mode == 'separate' or (mode == 'mixed' and rng.random() < 0.5)):
             out.append(dict(NEWPROC))
@@ -1086,10 +1114,12 @@ def evaluate(ctx, pool, cases, label_of):
                 return [sx(ev_sx({'gen': 'newproj', 't': ev['dir'][1], 'name': ev['dir'][2], 'apps': [[ev['dir'][3], 'ouch']]})), 'newproc']
             return []
         lines = [f'gen.hist {SEM} ' + ' '.join(pre_sx(fresh_evs[k]) + [sx(ev_sx(fresh_evs[k]))]) for k in keys]
-        lines += [f'gen.hist {SEM} ' + ' '.join(sx(ev_sx(e)) for e in c) for c in cases]
+        modelled = [ci for ci, c in enumerate(cases) if not any(e.get('fault') is not None for e in c)]
+        lines += [f'gen.hist {SEM} ' + ' '.join(sx(ev_sx(e)) for e in cases[ci]) for ci in modelled]
         out = ctx.driver.ask(lines)
         fresh_ans = dict(zip(keys, out[:len(keys)]))
-        ans = out[len(keys):]
+        for ci, a in zip(modelled, out[len(keys):]):
+            ans[ci] = a
     for ci, (case, rl) in enumerate(zip(cases, real)):
         label = label_of(ci)
         rep_case = {'history': case, 'label': label}
